@@ -303,41 +303,49 @@ func runC16Bubble(c LookupCase, info *h.Info) *h.Violation {
 		// every later request is answered at once. So a caller whose own limit reaches beyond E must
 		// end up with a handle: it either joined the first flight and retries after it failed with
 		// SOMEBODY ELSE's context error, or it starts after E.
+		lim := func(cl LCaller) time.Duration {
+			if cl.Ctx == "deadline" || cl.Ctx == "cancel" {
+				if d := time.Duration(cl.TS) * time.Second; d < 5*time.Minute || cl.Ctx == "deadline" {
+					return d
+				}
+			}
+			return 5 * time.Minute
+		}
 		first := -1
 		for i, cl := range c.Callers {
-			if cl.Entry != "secret" && (first < 0 || starts[i] < starts[first]) {
+			// (a caller whose context has already ended on entry may or may not get a request out: it is
+			// neither counted as the one whose request hangs nor expected to succeed)
+			if cl.Entry != "secret" && lim(cl) > 0 && (first < 0 || starts[i] < starts[first]) {
 				first = i
 			}
 		}
 		if first >= 0 {
-			lim := func(cl LCaller) time.Duration {
-				if cl.Ctx == "deadline" || cl.Ctx == "cancel" {
-					if d := time.Duration(cl.TS) * time.Second; d < 5*time.Minute || cl.Ctx == "deadline" {
-						return d
-					}
-				}
-				return 5 * time.Minute
-			}
 			E := starts[first] + lim(c.Callers[first])
 			for i, cl := range c.Callers {
 				if i == first || cl.Entry == "secret" {
 					continue
 				}
-				if end := starts[i] + lim(cl); end > E+time.Second && results[i].done && results[i].err != nil {
+				if end := starts[i] + lim(cl); lim(cl) > 0 && end > E+time.Second && results[i].done && results[i].err != nil {
 					return h.V("not-failed-by-anothers-cancellation", "caller %d %+v failed (%v) although only the first request hangs (until %v, the end of caller %d's context) and its own limit reaches until %v; requests: %s", i, cl, results[i].err, E, first, end, fmtReqs(reqs))
 				}
 			}
 			info.Class("first-request-hangs-then-service-answers")
 		}
 	}
-	lone := 0
+	lone, anyEnded := 0, false
 	for _, cl := range c.Callers {
 		if cl.Entry != "secret" {
 			lone++
+			if cl.Ctx == "deadline" && cl.TS == 0 {
+				anyEnded = true
+			}
 		}
 	}
+	if anyEnded {
+		info.Class("a-caller-whose-context-had-ended-before-the-call")
+	}
 	if strings.HasPrefix(c.Kind, "err") {
-		if lone == 1 && len(reqs) != 1 {
+		if lone == 1 && len(reqs) != 1 && !(anyEnded && len(reqs) == 0) {
 			return h.V("no-automatic-retry", "a lone caller against a failing service caused %d requests", len(reqs))
 		}
 		if len(reqs) > lone {
@@ -402,9 +410,10 @@ func runC16Bubble(c LookupCase, info *h.Info) *h.Violation {
 		if nupd >= 2 {
 			info.Class("several-updaters-from-one-lookup-follow-a-new-version")
 		}
-	} else if st.Secret("x") != nil {
+	} else if st.Secret("x") != nil && !anyEnded {
 		// no caller obtained a handle, so every flight failed (the scripted service honours the
-		// context of the request): nothing may have been installed
+		// context of the request): nothing may have been installed. (A caller whose context had
+		// ended before it called is told so - while the request it caused may well be answered.)
 		return h.V("failed-lookup-installs-nothing", "every lookup reported an error, yet the secret is known to the store afterwards (service %s, cache failing=%v)", c.Kind, c.CacheFail)
 	}
 	return nil
@@ -435,8 +444,11 @@ func genLookupCase(rt *rapid.T) LookupCase {
 		cl := LCaller{
 			StartS: rapid.SampledFrom([]int{0, 0, 0, 1, 5, 60, 200, 299, 301}).Draw(rt, "start"),
 			Ctx:    rapid.SampledFrom([]string{"bg", "background", "deadline", "cancel"}).Draw(rt, "ctx"),
-			TS:     rapid.SampledFrom([]int{1, 2, 10, 100, 299, 301, 500, 900}).Draw(rt, "t"),
+			TS:     rapid.SampledFrom([]int{0, 1, 2, 10, 100, 299, 301, 500, 900}).Draw(rt, "t"), // 0: a context that has already ended on entry
 			Entry:  rapid.SampledFrom([]string{"lookup", "lookup", "lookup", "updater", "apply", "applyjson", "secret"}).Draw(rt, "entry"),
+		}
+		if cl.TS == 0 && cl.Ctx != "deadline" {
+			cl.TS = 1 // (a cancellation "at once" would race with the call; a deadline of zero has passed for sure)
 		}
 		c.Callers = append(c.Callers, cl)
 	}
